@@ -351,6 +351,9 @@ func (st *State) applyContract(fr *Frame, in ssa.CallInstruction, ct *Contract, 
 	for _, c := range ct.Ensures {
 		st.assume(st.elabBool(env, c.E))
 	}
+	for _, c := range ct.GhostEns {
+		st.assume(st.elabBool(env, c.E))
+	}
 	env.assume = false
 	for _, g := range ct.GhostSet {
 		v, _ := st.elab(env, g.E)
